@@ -249,7 +249,56 @@ _ddl_op = st.one_of(
 
 @st.composite
 def _ddl_case(draw, tier):
-    return {"ops": draw(st.lists(_ddl_op, min_size=2, max_size=10))}
+    """State-aware (DROP / ALTER / COMMENT need an object that exists); a quarter of the operations is drawn blindly."""
+    n = draw(st.integers(2, 10))
+    objs: dict[int, str] = {}
+    schemas: set[int] = set()
+    dbs: set[int] = set()
+    ops: list = []
+    _ni, _qi = st.integers(0, len(OBJ_NAMES) - 1), st.integers(0, len(QUALS) - 1)
+    for _ in range(n):
+        if draw(st.integers(0, 3)) == 0:
+            ops.append(draw(_ddl_op))
+            continue
+        tables = sorted(i for i, k in objs.items() if k == "TABLE")
+        free = [i for i in range(len(OBJ_NAMES)) if i not in objs]
+        menu = ["container"]
+        if free:
+            menu += ["create", "create"]
+        if objs:
+            menu += ["drop", "drop", "replace"]
+        if tables:
+            menu += ["alter_add", "alter_rename", "comment_on", "alter_set_comment"]
+        what = draw(st.sampled_from(menu))
+        qi = draw(_qi)
+        if what == "create":
+            i = draw(st.sampled_from(free))
+            kind = draw(st.sampled_from(["create_table", "create_table_comment", "ctas", "create_view", "create_or_replace_table", "create_or_replace_view"]))
+            objs[i] = "VIEW" if "view" in kind else "TABLE"
+            ops.append([kind, i, qi])
+        elif what == "drop":
+            i = draw(st.sampled_from(sorted(objs)))
+            del objs[i]
+            ops.append(["drop", i, qi])
+        elif what == "replace":
+            i = draw(st.sampled_from(sorted(objs)))
+            ops.append(["create_or_replace_table" if objs[i] == "TABLE" else "create_or_replace_view", i, qi])
+        elif what == "alter_rename":
+            i = draw(st.sampled_from(tables))
+            del objs[i]
+            ops.append(["alter_rename", i, qi])
+        elif what in ("alter_add", "comment_on", "alter_set_comment"):
+            ops.append([what, draw(st.sampled_from(tables)), qi])
+        else:
+            i = draw(_ni)
+            which, pool = draw(st.sampled_from([("schema", schemas), ("database", dbs)]))
+            if i in pool:
+                pool.discard(i)
+                ops.append([f"drop_{which}", i, draw(st.integers(0, 1))])
+            else:
+                pool.add(i)
+                ops.append([f"create_{which}", i, draw(st.integers(0, 1))])
+    return {"ops": ops}
 
 
 def run_ddl(case, ctx: Ctx) -> None:
